@@ -19,7 +19,10 @@ MANIFEST = dict(
          "exactly the BOLT-3 fee of a rate within [min,max] feerate (0 for zero-fee anchors).  The model is run against the "
          "real validators (through the Validator trait, arbitrary heights) and against the real Channel calls on every run; "
          "an independent monitor evaluates the property's conjunction on every acceptance and verifies the returned "
-         "signature against the named input.",
+         "signature against the named input.  The same requests are also sent as protocol messages (SignDelayedPaymentToUs, "
+         "SignRemoteHtlcToUs, SignPenaltyToUs, their SignAny* variants, SignLocalHtlcTx, SignAnyLocalHtlcTx, SignRemoteHtlcTx) "
+         "through the Root/ChannelHandler with the handler's glue modelled (input index, PSBT amount, wallet path from the "
+         "PSBT output's key origin, channel look-up) and the property evaluated on what was signed.",
     design="§4 C09",
     note=lib.TB + "Premises visible in the theorems: sighash injective on the covered fields and hash equality decidable "
          "(instantiated by the identity in the executable comparison, C09_htlc_premises_satisfiable); commitment type other "
@@ -75,8 +78,8 @@ def run(res):
     lib.proof_stage(res, "C09.v", "Props.C09", PINNED)
     cov = res.coverage
     profiles = ["debug"] if quick else ["debug", "release"]
-    n = dict(sweepval=2400, sweepchan=700, htlcval=2000, htlcchan=700) if quick else \
-        dict(sweepval=30000, sweepchan=4000, htlcval=30000, htlcchan=4000)
+    n = dict(sweepval=2400, sweepchan=700, htlcval=2000, htlcchan=700, sweephandler=1200, htlchandler=1200) if quick else \
+        dict(sweepval=30000, sweepchan=4000, htlcval=30000, htlcchan=4000, sweephandler=10000, htlchandler=10000)
     cases = {k: [] for k in n}
     stats = []
     for prof in profiles:
@@ -91,6 +94,10 @@ def run(res):
     hterms = [c["coq"] for c in htlcs]
     fs = lib.coq_failures(IMPORTS, "sweep_case", "check_sweep", sterms, "c09_sweep")
     fh = lib.coq_failures(IMPORTS, "htlc_case", "check_htlc", hterms, "c09_htlc")
+    # the same requests as protocol messages through the Root/ChannelHandler (glue modelled in SweepCheck.v)
+    hsw, hht = cases["sweephandler"], cases["htlchandler"]
+    fhs = lib.coq_failures(IMPORTS, "hsweep_case", "check_hsweep", [c["coq"] for c in hsw], "c09_hsweep")
+    fhh = lib.coq_failures(IMPORTS, "hhtlc_case", "check_hhtlc", [c["coq"] for c in hht], "c09_hhtlc")
 
     # ---- the property itself on the implementation's answers
     mon_s = [c for c in sweeps if c["monitor_violation"]]
@@ -124,6 +131,28 @@ def run(res):
         res.violation("accepted second-level HTLC transaction outside the property: " + "; ".join(c["monitor_violation"][:3]),
                       {"domain": "htlc-" + c["level"], "seed": res.seed, "case": _strip(c)})
         reported += 1
+
+    mon_hd = [c for c in hsw + hht if c["monitor_violation"]]
+    for c in mon_hd[:3]:
+        res.violation("a protocol request was answered with a signature outside the property (handler level; the property is "
+                      "evaluated on what was signed): " + "; ".join(c["monitor_violation"][:3])[:600],
+                      {"domain": "sweep-handler" if "sweep" in c["request"] else "htlc-handler", "seed": res.seed,
+                       "case": _strip(c)})
+        reported += 1
+    shown = 0
+    for lst, bad, model_fn, what in ((hsw, fhs, "hsweep_model_with SignedInput", "sweep"), (hht, fhh, "hhtlc_model", "htlc")):
+        for i in bad:
+            c = lst[i]
+            if c["monitor_violation"]:
+                continue
+            if shown >= 3:
+                break
+            shown += 1
+            model = lib.coq_eval(IMPORTS, "%s (%s)" % (model_fn, c["coq"]), "c09_show")
+            res.violation("protocol handler disagrees with the model of its glue + Channel call (correspondence %s-handler); "
+                          "codes: 0 signed, 1 panic, 150 refused" % what,
+                          {"correspondence": what + "-handler", "theorem": "C09_sweep_accept" if what == "sweep" else "C09_htlc_accept",
+                           "case": _strip(c), "model": model[-200:]}, has_input=False)
 
     # ---- correspondence; say whether the implementation still behaves like the code as found
     explained_old = None
@@ -161,7 +190,7 @@ def run(res):
                       {"correspondence": "htlc-" + c["level"], "theorem": "C09_htlc_accept", "case": _strip(c),
                        "model": model[-300:]}, has_input=False)
 
-    allc = sweeps + htlcs
+    allc = sweeps + htlcs + hsw + hht
     structured = {c["coq"] for c in allc if c.get("structured")}
     dist = {}
     for k, cs in cases.items():
@@ -191,21 +220,32 @@ def run(res):
                 "range, mutated in version, lock time, sequence, to_self_delay (the other side's, +-1), revocation key, "
                 "delayed key, output script, fee at min-1/min/min+1/max-1/max/max+1/2^32(+302) rates and one satoshi off "
                 "the grid, output value, amount at 0, 546, 2^32, 2^64/1000(+1), 2^64-1, extra input / output, no inputs / "
-                "outputs, redeemscript kind / anchor variant / garbage, filter, commitment number, outpoint.  Non-trivial = "
+                "outputs, redeemscript kind / anchor variant / garbage, filter, commitment number, outpoint.  Handler level: the "
+                "same generators, sent as SignDelayedPaymentToUs / SignRemoteHtlcToUs / SignPenaltyToUs and their SignAny* "
+                "variants, SignLocalHtlcTx / SignAnyLocalHtlcTx / SignRemoteHtlcTx (as_vec -> from_vec -> handler at protocol "
+                "4/5/6), with the glue fields varied: wire input index, distinct witness_utxo amounts per PSBT input "
+                "(missing, msat-sized, more/fewer PSBT inputs than the tx), key origins per PSBT output (bip32 / taproot, "
+                "none, other index, two origins, exchanged between outputs, no PSBT outputs), witness_script of PSBT "
+                "outputs, unknown dbid; every returned signature is verified against the mapped key, input, amount and "
+                "script.  Non-trivial = "
                 "structured case (base or mutated; not the malformed stream), distinct by full Coq term.",
         "samples": [_strip(cases["sweepchan"][0]), _strip(cases["sweepval"][12]), _strip(cases["htlcchan"][1]),
-                    _strip(cases["htlcval"][22])],
+                    _strip(cases["htlcval"][22]), _strip(hsw[3]), _strip(hht[4])],
         "traces_validated_against_impl": len(allc),
         "accepted": accepted,
         "accepted_sweeps_with_2_or_more_outputs": multi_out,
         "accepted_sweeps_signing_input_above_0": multi_in,
         "sweep_cases_with_time_based_locktime": timelock,
-        "correspondence_disagreements": len(fs) + len(fh),
-        "disagreements_by_domain": {"sweep": len(fs), "htlc": len(fh)},
+        "correspondence_disagreements": len(fs) + len(fh) + len(fhs) + len(fhh),
+        "disagreements_by_domain": {"sweep": len(fs), "htlc": len(fh), "sweep-handler": len(fhs), "htlc-handler": len(fhh)},
+        "handler_level": {"requests": len(hsw) + len(hht), "signed": sum(1 for c in hsw + hht if c["observed"] == 0),
+                          "signatures_verified_against_named_input": sum(1 for c in hsw if c.get("signature_verifies_for_named_input"))
+                          + sum(1 for c in hht if c.get("signature_verifies")),
+                          "monitor_failures": len(mon_hd)},
         "disagreements_matching_code_as_found(first-input sequence)": explained_old,
-        "monitor_failures": len(mon_s) + len(mon_h),
+        "monitor_failures": len(mon_s) + len(mon_h) + len(mon_hd),
         "monitor_failures_by_class": {"sweep-sequence-of-first-input": len(seq_cases), "sweep-other": len(other_s),
-                                      "htlc": len(mon_h)},
+                                      "htlc": len(mon_h), "handler": len(mon_hd)},
         "observed_distribution": dist,
         "profiles": profiles,
         "harness_stats": stats,
